@@ -98,6 +98,13 @@ func (exec *Executor) execArrayIndex(
 					break
 				}
 			}
+
+			// Stop at the first error or, when only checking for existence, at
+			// the first item found, rather than let the next subscript
+			// overwrite the result.
+			if res.failed() || (res == statusOK && found == nil) {
+				break
+			}
 		}
 
 		return res, resErr
